@@ -10,8 +10,19 @@ _model_cache = {}
 
 
 def go_model():
+    """the information model the generators and the Python oracle work with: the table as it stands in the SOURCE (regenerated into
+    Gen/InfoModel.v, proved equal to the registry snapshot, printed by the extracted model) - not the map the running process
+    happens to hold, which is one of the things under test (C20 compares the two); the evaluated Go map only when the model is
+    not available in this run"""
     if "m" not in _model_cache:
-        _model_cache["m"] = load_model(vf.run_impl(["infomodel builtin"], shards=1)[0])
+        m = {}
+        try:
+            m = load_model(vf.run_model(["infomodel builtin"])[0])
+        except Exception:
+            m = {}
+        if len(m) < 100:
+            m = load_model(vf.run_impl(["infomodel builtin"], shards=1)[0])
+        _model_cache["m"] = m
     return _model_cache["m"]
 
 
